@@ -135,6 +135,11 @@ def lazy_parallel_map(
 
         def terminate(ex: pathos.multiprocessing.ProcessPool, q):
             ex.terminate()
+            # pathos caches the pool. A terminated pool stays in the cache and
+            # every later use fails with "Pool not running". Hence, remove it
+            # from the cache.
+            ex.join()
+            ex.clear()
             # Cancel doesn't work for pathos. Don't know why.
             # try:
             #     while True:
